@@ -152,7 +152,7 @@ contract(SQ, "Sequence.modify_eom_setpoint", props=("C15",), lemmas=lambda c: me
          modifies={SC.SLOTS: lambda c: [CS(c)], SC.EBLOCKS: lambda c: [CS(c)], "_EOMSettings.tf": None, "$alloc": None,
                    BR_TIMES: mes_touched_trackers, BR_PHASES: mes_touched_trackers, "Sequence._calls": lambda c: [T(c.self)], "Sequence._to_build_calls": lambda c: [T(c.self)]},
          exc_safe=False,
-         slices={"drift-window-is-contiguous": ("targets-shifted-additively", "built-case", "schedule-is-always", "frame", "blocks-kept", "earlier-blocks-kept", "L-lpsi-agree", "lemma")},
+         slices={"drift-window-is-contiguous": ("targets-shifted-additively", "built-case", "schedule-is-always", "frame", "blocks-kept", "earlier-blocks-kept", "L-lpsi-agree", "lemma", "eom.well-ordered", "eom-blocks-wf")},
          )
 
 
@@ -270,7 +270,7 @@ contract(SQ, "Sequence.enable_eom_mode", props=("C15", "C13"),
                    BR_TIMES: mes_touched_trackers, BR_PHASES: mes_touched_trackers, "Sequence._calls": lambda c: [T(c.self)], "Sequence._to_build_calls": lambda c: [T(c.self)]},
          exc_safe=False,
          slices={"drift-window-is-the-buffer": ("targets-shifted-additively", "built-case", "schedule-is-always", "frame", "blocks-kept", "earlier-blocks-kept", "lemma",
-                                                "INV.monotone", "INV.contiguous", "INV.boundaries-nonneg", "INV.first-is-initial-target", "INV.len>=0")},
+                                                "INV.monotone", "INV.contiguous", "INV.boundaries-nonneg", "INV.first-is-initial-target", "INV.len>=0", "eom.well-ordered", "eom-blocks-wf")},
          )
 
 
@@ -326,5 +326,91 @@ contract(SQ, "Sequence.disable_eom_mode", props=("C15", "C13"), lemmas=lambda c:
                    BR_TIMES: mes_touched_trackers, BR_PHASES: mes_touched_trackers, "Sequence._calls": lambda c: [T(c.self)], "Sequence._to_build_calls": lambda c: [T(c.self)]},
          exc_safe=False,
          slices={"drift-window-ends-with-the-block": ("targets-shifted-additively", "built-case", "schedule-is-always", "frame", "blocks-kept", "lemma", "L-lpsi-agree", "L-lpsi-extend", "appended-slots-are-no-real-pulses",
-                                                      "INV.monotone", "INV.contiguous", "INV.boundaries-nonneg", "INV.first-is-initial-target", "INV.len>=0")},
+                                                      "INV.monotone", "INV.contiguous", "INV.boundaries-nonneg", "INV.first-is-initial-target", "INV.len>=0", "eom.well-ordered", "eom-blocks-wf")},
+         )
+
+
+# --------------------------------------------------------------------------
+# add_eom_pulse (C15): square pulse with the block's setpoint; the drift since the last real pulse is taken off the pulse's phase and off the reference
+# --------------------------------------------------------------------------
+from .sequence import add_requires, _isinst, _cval, P_AMP, P_DET, P_PPS, is_dmm  # noqa: E402
+from .lib import PULSE, p_duration, p_phase, s_kind, s_pulse, clock, min_dur  # noqa: E402
+
+
+class AEP_ctx:
+    """the view Sequence._add has of an add_eom_pulse context (the pulse itself is built inside; its clauses are dropped)"""
+    def __init__(self, c):
+        self.__dict__.update(c.__dict__)
+
+    def __getattr__(self, k):
+        return self.a[k]
+
+
+def aep_requires(c):
+    h = c.old
+    cs = CS(c)
+    drop = ("valid-pulse",)
+    from pyvc.core import Sym
+    c2 = AEP_ctx(c)
+    c2.a = dict(c.a, pulse=Sym(z3.Const("noPulse!aep", Ref), ("ref", "Pulse")))
+    return [cl for cl in add_requires(c2) if cl[0] not in drop] + SC.EOMINV(h, cs) + [("not-a-dmm", z3.Not(is_dmm(cs_chan(cs))))]
+
+
+def aep_ensures(c):
+    h0, h1, seq = c.old, c.new, T(c.self)
+    cs = CS(c)
+    ch = cs_chan(cs)
+    basis = fget("Channel", "basis", ch)
+    n0, n1 = cs_len(h0, cs), cs_len(h1, cs)
+    e0 = SC.eb_len(h0, cs)
+    blk = SC.eb_at(h0, cs, e0 - 1)
+    last0, new = cs_at(h0, cs, n0 - 1), cs_at(h1, cs, n1 - 1)
+    sp = s_pulse(new)
+    arr0 = SC.cs_arr(h0, cs)
+    L = SC.LPSI(arr0, n0, z3.BoolVal(True))
+    last_pulse_tf = z3.If(HAS_REAL_PULSE(arr0, n0), s_tf(z3.Select(arr0, L)), 0)
+    start = z3.If(eb_ti(blk) >= last_pulse_tf, eb_ti(blk), last_pulse_tf)
+    drift = DRIFT(-eb_det_off(blk), s_ti(new) - start)
+    tg = s_targets(last0)
+    tr0 = lambda qq: q_phase(h0, qref(h0, seq, basis, qq))
+    q = z3.Const("q!aep", Qid)
+    ref = lambda qq: z3.If(last_phase(h0, tr0(qq)) == 0, 0, last_phase(h0, tr0(qq)))
+    d = T(c.duration)
+    return [
+        ("was-in-eom-mode", in_eom(h0, cs)),
+        ("appends-a-pulse-slot-on-the-same-targets", z3.And(n1 >= n0 + 1, n1 <= n0 + 2, s_kind(new) == PULSE, s_targets(new) == tg)),
+        ("square-pulse-with-the-block's-setpoint", z3.And(_isinst(P_AMP(sp), "ConstantWaveform"), _isinst(P_DET(sp), "ConstantWaveform"),
+                                                          _cval(P_AMP(sp)) == SC.eb_rabi(blk), _cval(P_DET(sp)) == SC.eb_don(blk))),
+        ("duration-is-validated", z3.And(p_duration(sp) >= d, p_duration(sp) < d + clock(ch), p_duration(sp) >= min_dur(ch))),
+        ("phase-is-programmed-plus-reference-minus-drift", z3.ForAll([q], z3.Implies(z3.Select(tg, q), p_phase(sp) == z3.If(
+            T(c.correct_phase_drift), fmt(fmt(fmt(T(c.phase)) + ref(q)) - drift), fmt(fmt(T(c.phase)) + ref(q)))), patterns=[qref(h0, seq, basis, q)])),
+        ("drift-since-the-last-real-pulse-taken-off-the-reference", z3.Implies(T(c.correct_phase_drift), z3.ForAll([q], z3.Implies(z3.Select(tg, q),
+            z3.If(fmt(fmt(T(c.post_phase_shift))) - drift != 0, last_phase(h1, tr0(q)) == fmt(last_phase(h0, tr0(q)) + (fmt(fmt(T(c.post_phase_shift))) - drift)),
+                  last_phase(h1, tr0(q)) == last_phase(h0, tr0(q)))), patterns=[qref(h0, seq, basis, q)]))),
+        ("still-in-eom-mode", in_eom(h1, cs)),
+        ("within-max-sequence-duration", SC.MAXD(h1, SCH(c), cs)),
+    ] + [(f"INV.{nm}", cl) for nm, cl in SC.INV(h1, cs)] + [(f"BRINV.{nm}", cl) for nm, cl in BRINV(h1, seq)]
+
+
+def aep_touched_refs(c):
+    h0, seq = c.old, T(c.self)
+    cs = CS(c)
+    basis = fget("Channel", "basis", cs_chan(cs))
+    q = z3.Const("q!ar", Qid)
+    return lambda r: z3.Exists([q], r == qref(h0, seq, basis, q))
+
+
+contract(SQ, "Sequence.add_eom_pulse", props=("C15",),
+         params={"self": ("ref", "Sequence"), "channel": "str", "duration": "int", "phase": "real", "post_phase_shift": "real", "protocol": "str", "correct_phase_drift": "bool"},
+         requires=aep_requires,
+         ensures=aep_ensures,
+         spec_defs=lambda c: [SC.lpsi_def(SC.cs_arr(c.old, CS(c)), cs_len(c.old, CS(c)), z3.BoolVal(True)), SC.lpsi_def(SC.cs_arr(c.old, CS(c)), cs_len(c.old, CS(c)), z3.BoolVal(False)),
+                              has_real_pulse_def(SC.cs_arr(c.old, CS(c)), cs_len(c.old, CS(c)))],
+         raises={"ValueError": ("only-if", lambda c: z3.BoolVal(True)), "RuntimeError": ("only-if", lambda c: z3.BoolVal(True)), "TypeError": ("only-if", lambda c: z3.BoolVal(True))},
+         modifies={SC.SLOTS: lambda c: [CS(c)], "_QubitRef.last_used": aep_touched_refs, BR_TIMES: mes_touched_trackers, BR_PHASES: mes_touched_trackers, "$alloc": None,
+                   "Sequence._calls": lambda c: [T(c.self)], "Sequence._to_build_calls": lambda c: [T(c.self)], "Sequence._empty_sequence": lambda c: [T(c.self)]},
+         exc_safe=False,
+         slices={"phase-is-programmed-plus-reference-minus-drift": ("drift-corrected-phase", "phase-is-programmed-plus-reference", "phase-in-range", "phase-unchanged", "frame", "L-lpsi", "lemma", "eom.well-ordered", "eom-blocks-wf"),
+                 "drift-since-the-last-real-pulse-taken-off-the-reference": ("drift-taken-off-the-reference", "post-phase-shift-applied", "frame", "L-lpsi", "lemma", "eom.well-ordered", "eom-blocks-wf")},
+         lemmas=lambda c: mes_lemmas(c),
          )
